@@ -53,6 +53,9 @@ const NAMES: &[&str] = &[
     "deep.sub.example.", "other.sub.example.", "DEEP.sub.example.",
     "nosuch.example.", "nosuch2.example.", "a.nosuch.example.",
     "www.elsewhere.", "zzz.", "x.unloaded.", "y.unloaded.",
+    // names under a wildcard whose RRsets are too large for a plain UDP response: an ANY (or TXT)
+    // answer is truncated - emptied, TC set, still NOERROR - and must still count for the wildcard
+    "a.big.example.", "b.big.example.", "C.Big.Example.",
 ];
 
 /// Ground truth by construction of the zone: the name that identifies a
@@ -63,6 +66,8 @@ fn stream_name(qname: &str) -> String {
         "*.w.example.".into()
     } else if q.ends_with(".v.example.") {
         "*.v.example.".into()
+    } else if q.ends_with(".big.example.") {
+        "*.big.example.".into()
     } else {
         q
     }
@@ -78,6 +83,10 @@ fn zone() -> Arc<quandary::db::HashMapTreeZone> {
     z.add("*.v.example.", wire::T_CNAME, 60, &wire::name_wire("www.example."));
     z.add("sub.example.", wire::T_NS, 60, &wire::name_wire("ns.sub.example."));
     z.add("ns.sub.example.", wire::T_A, 60, &[10, 0, 0, 53]);
+    z.add("*.big.example.", wire::T_A, 60, &[10, 0, 0, 9]);
+    for i in 0..4u8 {
+        z.add("*.big.example.", wire::T_TXT, 60, &wire::txt_rdata(&vec![b'a' + i; 200]));
+    }
     z.finish()
 }
 fn catalog() -> Arc<Cat> {
@@ -303,7 +312,7 @@ impl Prop for C27 {
         h
     }
     fn rule() -> String {
-        "one execution = a fresh server (rate = window = 1 for all categories, slip 0 or 1, random IPv4 prefix 0-32 / IPv6 prefix 0-64, table size 1/3/64) receiving 2-3 requests A,[A'],B less than one simulated second apart from simulated peers (IPv4, IPv6, IPv4-mapped); a third of the cases are adversarial pairs (addresses on the prefix boundary, mapped/unmapped forms, numerically equal IPv4/IPv6 prefixes, names equal up to case, same and sibling wildcards); oracle: B limited <=> an earlier eligible, answered request is in B's stream. Non-trivial = B is eligible for limiting; distinct = distinct scenario".into()
+        "one execution = a fresh server (rate = window = 1 for all categories, slip 0 or 1, random IPv4 prefix 0-32 / IPv6 prefix 0-64, table size 1/3/64) receiving 2-3 requests A,[A'],B less than one simulated second apart from simulated peers (IPv4, IPv6, IPv4-mapped); a third of the cases are adversarial pairs (addresses on the prefix boundary, mapped/unmapped forms, numerically equal IPv4/IPv6 prefixes, names equal up to case, same and sibling wildcards, a wildcard whose ANY/TXT answer is truncated over UDP); oracle: B limited <=> an earlier eligible, answered request is in B's stream. Non-trivial = B is eligible for limiting; distinct = distinct scenario".into()
     }
     fn assumptions() -> Vec<String> {
         vec![
@@ -389,6 +398,15 @@ fn run_case(scn: &Scn, hash_key: u64) -> Option<(String, String, bool)> {
             (Some(_), None) => true,
             (Some(r), Some(g)) => {
                 if r == g {
+                    // A response that is *truncated anyway* (TC, no records) looks exactly like a
+                    // slipped one: with slip 1 nothing can be observed for such a request - it is
+                    // counted as an answered member of its stream and not judged itself.
+                    let truncated_anyway = matches!(wire::decode(r), Ok(m) if m.tc() && m.answers.is_empty() && m.authority.is_empty());
+                    if truncated_anyway && scn.slip != 0 && eligible {
+                        simrt::probe("c27_truncated_anyway_not_observable");
+                        earlier.push(me);
+                        continue;
+                    }
                     false
                 } else {
                     match wire::decode(g) {
